@@ -387,6 +387,7 @@ class World:
         self.n_eps = 0
         self.last_rx = {}      # timed mode: last delivery instant per receiver (FIFO)
         self.depth = 0
+        self.branching = True  # False: canonical schedule (job pass first), no interleaving choices
 
     # ---- helpers
     def add_node(self, name, dll='j1939-21', **kw):
@@ -433,7 +434,9 @@ class World:
             for n in self.nodes:
                 if n is sender:
                     continue
-                if reent:
+                if reent and not n.inbox and not any(ev[3] == 'rx:' + n.name for ev in self.events):
+                    # handled inside the sender's send call; only possible when every earlier frame
+                    # has already been delivered to this receiver (bus order per receiver)
                     n.deliver(frame)
                 elif self.mode == 'interleave':
                     n.inbox.append(frame)
@@ -488,7 +491,7 @@ class World:
             self.cp += 1
             others = (not has_in) and self._others_enabled(n)
             nalt = 1 + (1 if has_in else 0) + (1 if others else 0)
-            if nalt == 1:
+            if nalt == 1 or not self.branching:
                 n.run_job()
                 return True
             d, mark = ex.choose_begin(tag)
